@@ -11,6 +11,7 @@ import Yaep.Model.BuildSet
 import Yaep.Model.CodeTable
 import Yaep.Model.BuildSet2
 import Yaep.Model.PruneC
+import Yaep.Model.AnalysisC
 /-!
 # The judge: compares the observations of the real library with the model
 
@@ -91,6 +92,14 @@ def judgeDefRes (prop : String) (cid : String) (o : Op) (res : Except ErrCode Gr
       let gotSyms := strSet ((o.get "sym").filterMap fun ws => match ws with
         | "N" :: rest => some (" ".intercalate rest) | _ => none)
       out := out.v cid o.n prop "D" (expSyms == gotSyms) s!"flags model={expSyms} impl={gotSyms}"
+      -- the same flags from the step-for-step transcription of the three analysis loops
+      -- (Model/AnalysisC.lean; `emptyAccessDerives_eq`, `loopC_eq`)
+      let b := fun (x : Bool) => if x then 1 else 0
+      let rows := AC.flagRows g
+      let expSymsC := strSet ((List.range g.nN).map fun A =>
+        let r := rows.getD A (false, false, false, false)
+        s!"{asciiName (g.ntNames.getD A "?")} {A} e={b r.1} a={b r.2.1} d={b r.2.2.1} l={b r.2.2.2}")
+      out := out.v cid o.n prop "D" (expSymsC == gotSyms) s!"flags of the step model of the analysis loops model={expSymsC} impl={gotSyms}"
       let expTerms := strSet ((List.range g.nT).map fun a => s!"{asciiName (g.termNames.getD a "?")} {g.termCodes.getD a 0} {a}")
       let gotTerms := strSet ((o.get "sym").filterMap fun ws => match ws with
         | "T" :: rest => some (" ".intercalate rest) | _ => none)
